@@ -122,7 +122,7 @@ def find_loop_ids(crate, harness_name, wanted):
     return sorted(set(sel))
 
 
-CHECK_RE = re.compile(r"^Check (\d+): (\S+)\n\t - Status: (\S+)\n\t - Description: \"(.*?)\"?\n\t - Location: (.*)$", re.M | re.S)
+CHECK_RE = re.compile(r"^Check (\d+): (\S+)\n\t - Status: (\S+)\n\t - Description: \"(.*?)\"?\n\t - Location: ([^\n]*)$", re.M | re.S)
 
 
 def parse_log(txt, res):
